@@ -113,6 +113,19 @@ func (sess *hopSession) start() {
 		}
 		logrus.Infof("S: ACCEPTED NEW TUBE Type: %v, ID: %v, Reliable? %v)", tube.Type(), tube.GetID(), tube.IsReliable())
 
+		// A session admitted through authorization grants may only start what a
+		// grant covers. Grants exist for command and shell execution (checked in
+		// startCodex); nothing can authorize such a session to forward ports or
+		// to have further grants issued, so those tubes are refused.
+		if sess.usingAuthGrant {
+			switch tube.Type() {
+			case common.AuthGrantTube, common.PFControlTube, common.PFTube:
+				logrus.Warnf("S: refusing tube of type %v in a session admitted by authorization grant", tube.Type())
+				tube.Close()
+				continue
+			}
+		}
+
 		if r, ok := tube.(*tubes.Reliable); ok {
 			switch tube.Type() {
 			case common.ExecTube:
